@@ -528,19 +528,19 @@ def convertX (lg : Bool) (o : Opts) (dup : Bool) (x : X) : Option JS :=
 /-- the converters of objects (/repo 792c820) and maps (/repo 39b1e2e) are modelled as fixed: no legacy document. -/
 def isLegacy (_ts : List String) : Bool := false
 
-/-! ### the recursive family `( recV WRAP LEAF )` (Model/JsonSchemaRec.lean); `recv` = the tree's convertLazy answers a
-    cycle that does not close at the root with `{"$ref":"#"}` (before the fix C07-lazy-ref-nonroot; probed) -/
+/-! ### the recursive family `( recV WRAP LEAF )` (Model/JsonSchemaRec.lean); the converter is modelled with `lazyRef`
+    (/repo 16f278d): a cycle that does not close at the root gets its own `$defs` entry -/
 
 def pWrap : String → Option Wrap
   | "root" => some .root | "field" => some .field | "slice" => some .slice | _ => none
 
 def pRec : List String → Option (Bool × Wrap × S × List String)
   | "(" :: tag :: w :: ts =>
-    if tag == "recV" || tag == "recv" then do
+    if tag == "recV" then do
       let w ← pWrap w
       let (leaf, ts) ← pS ts
       let (_, ts) ← expect ")" ts
-      pure (tag == "recv", w, leaf, ts)
+      pure (false, w, leaf, ts)
     else none
   | _ => none
 
